@@ -215,7 +215,7 @@ func (tr *Trans) instr(in ssa.Instruction) {
 		for _, r := range x.Results {
 			rs = append(rs, tr.val(r))
 		}
-		tr.rets = append(tr.rets, retInfo{cond: tr.rc, st: tr.st, results: rs, block: tr.cur})
+		tr.rets = append(tr.rets, retInfo{cond: tr.rc, st: tr.st, results: rs, block: tr.cur, instr: x})
 	case *ssa.If:
 		c := tr.val(x.Cond).C[0]
 		c = tr.e.name(fmt.Sprintf("c$%d$b%d", tr.id, tr.cur.Index), c)
